@@ -240,6 +240,20 @@ class Gen:
         if write_ok:
             ks += ["insert", "remove", "remove_all", "update", "update", "update_all"]
         k = r.choice(ks)
+        if r.random() < 0.18:
+            # a query that itself speaks about measurements - the handle's own name or another one - as an operand of | / & / ~: the handle's
+            # restriction must hold whatever the query already says
+            mq = ("S", "meas", [], ("cmp", r.choice(["==", "==", "!="]), ("s", name if r.random() < 0.7 else r.choice(MEAS))))
+            other = self.simple(r.choice(["tags", "fields", "time"]))
+            q = r.choice([("or", mq, other), ("or", other, mq), ("and", mq, other), ("not", mq), mq, ("or", mq, ("not", other))])
+            k2 = r.choice(["count", "search", "get", "contains", "select"] + (["remove", "update"] if write_ok else []))
+            if k2 == "search":
+                return ("handle", name, (k2, q, r.random() < 0.5))
+            if k2 == "select":
+                return ("handle", name, (k2, ["measurement", "time"], q))
+            if k2 == "update":
+                return ("handle", name, (k2, q, {"tags": ("static", {"via": name or "none"})}))
+            return ("handle", name, (k2, q))
         if k in ("len", "iter", "get_field_keys", "get_tag_keys", "get_timestamps", "remove_all"):
             h = (k,)
         elif k == "all":
@@ -588,6 +602,50 @@ class Gen:
             ops += [("search", ("and", fq("==", -1), ("S", "tags", [("k", "lv")], ("exists",))), None, False),
                     ("search", ("and", fq("==", -2), ("S", "tags", [("k", "lv")], ("exists",))), None, False),
                     ("count", ("not", fq("==", -1)), None), ("count", ("not", fq("==", -2)), None)]
+            # ... and a WRITE selected by the twin of a query just answered (nothing written in between): what the library remembers about
+            # one query must not decide what the other removes or updates
+            a, b = r.choice([(-1, -2), (-2, -1)])
+            c = r.choice(["==", "==", "<=", ">="])
+            ops += [r.choice([("count", fq(c, a), None), ("search", fq(c, a), None, False), ("contains", fq(c, a), None)])]
+            w = r.random()
+            if w < 0.45:
+                ops += [("remove", fq(c, b), None)]
+            elif w < 0.8:
+                ops += [("update", fq(c, b), {"tags": ("static", {"seen": "1"})}, None)]
+            else:
+                ops += [("handle", "m1", ("count", fq(c, a))), ("handle", "m1", ("remove", fq(c, b)))]
+            ops += obs + [("count", fq("==", -1), None), ("count", fq("==", -2), None), ("len",)]
+        elif k == "bulk":
+            # a database of a few hundred points, sized around powers of two (row counts, survivor counts, posting lists, batches of 128 /
+            # 256 / 512): removals that leave exactly 2^k points, updates of the newest rows, per-measurement getters whose newest point
+            # carries the key, ties of eight
+            n = self.profile.get("bulk_n") or r.choice([131, 259, 260, 260])
+            t = T0
+            pts = []
+            for i in range(n):
+                t += 0 if (40 <= i < 47) else SEC                      # eight points share one instant
+                meas = "m2" if (i % 7 == 3 or i == n - 1) else "m1"
+                p = {"time": t, "meas": meas, "tags": {"g": str(i % 5)}, "fields": {"v": i}}
+                if i == n - 1:
+                    p["fields"]["w"] = 1
+                pts.append(p)
+            cut = r.choice([n, 256, 128]) if n > 256 else r.choice([n, 128])
+            ops += [("insert", pts[:cut], None, "multiple")] + ([("insert", pts[cut:], None, "multiple")] if cut < n else []) + [("index_valid",), ("len",)]
+            fv = lambda c, v: ("S", "fields", [("k", "v")], ("cmp", c, ("n", v)))
+            tie_t = pts[40]["time"]
+            ops += [("count", fv(">=", n - 3), None), ("count", ("S", "time", [], ("cmp", "<=", ("t", tie_t))), None),
+                    ("count", ("S", "time", [], ("cmp", ">", ("t", tie_t))), None), ("count", ("S", "time", [], ("cmp", "==", ("t", tie_t))), "m1"),
+                    ("handle", "m2", ("get_field_values", "v")), ("handle", "m2", ("get_field_keys",)), ("handle", "m2", ("get_tag_values", ["g"])),
+                    ("handle", "m2", ("get_timestamps",)), ("get_field_keys", "m2"), ("get_tag_keys", "m2")]
+            keep = 256 if n > 256 else 128
+            ops += [("remove", fv("<", n - keep), None), ("index_valid",), ("len",), ("count", ("noop", "tags"), None),
+                    ("count", fv("<", n - keep + 2), None)]
+            ops += [("update", fv(">=", n - 2), {"fields": ("static", {"x": 1})}, None), ("index_valid",), ("len",),
+                    ("count", ("S", "fields", [("k", "x")], ("cmp", "==", ("n", 1))), None), ("handle", "m2", ("get_field_values", "v")),
+                    ("handle", "m2", ("len",))]
+            if r.random() < 0.5:
+                ops += [("remove", fv(">=", n - 1), None), ("len",), ("handle", "m2", ("get_field_keys",))]
+            obs = [("index_valid",)]
         elif k == "shared_maps":
             # a batch of points built from ONE tags mapping and ONE fields mapping (the harness hands equal mappings of a batch over as one
             # object): updates of a subset, of all, unsets, and an update that fails part-way must treat every point as having its own
